@@ -61,7 +61,7 @@ ExcPair = _collections.namedtuple("ExcPair", "first second")   # a tuple (subcla
 EXC_TYPES = {"ValueError": ValueError, "KeyError": KeyError, "RuntimeError": RuntimeError,
              "MyErr": MyErr, "KeyboardInterrupt": KeyboardInterrupt, "SystemExit": SystemExit,
              "Exception": Exception, "LookupError": LookupError, "GeneratorExit": GeneratorExit,
-             "AbcErr": AbcErr, "AbcChild": AbcChild}
+             "AbcErr": AbcErr, "AbcChild": AbcChild, "SkipTest": __import__("unittest").SkipTest}
 WARN_TYPES = {"DeprecationWarning": DeprecationWarning, "UserWarning": UserWarning,
               "RuntimeWarning": RuntimeWarning}
 TYPES = {"int": int, "str": str, "bytes": bytes, "list": list, "dict": dict, "bool": bool,
@@ -616,7 +616,9 @@ STR_POOL = ["", "a", "ab", "abc", "b", "A", "\xe9", "a\nb", "a'b\"c", "\\", "\x0
             "\U0001f600", "line1\nline2\n", "ab ab", "'''", 'say "hi"\n', "tab\there", "caf\xe9 ☃"]
 BYTES_POOL = ["", "61", "6162", "fffe", "610a62", "00", "636166c3a9", "27225c"]
 LIST_POOL = [[], [1], [1, 2], [2, 1], [1, 1], [1, 2, 3], [3, 3, 3], [0, -1, 5], [2, 2, 1, 1], [6, 5, 3, 2, 1],
-             [1, 2, 2], [1, 1, 2], [2, 1, 2]]
+             [1, 2, 2], [1, 1, 2], [2, 1, 2],
+             # elements that compare equal and are different things to a matcher: 1 / 1.0, 0 / False
+             [1, 1.0], [0, False, 0.0], [2, 2.0, 1]]
 DICT_POOL = [{}, {"a": 1}, {"a": 2}, {"a": 1, "b": 2}, {"b": 2}, {"a": 0, "b": 0, "c": 3}, {"\xe9": 1},
              {"a": 0}, {"a": 1, "b": 0},
              # keys of different types, which cannot be ordered against each other ("#1" is the int 1)
@@ -630,7 +632,9 @@ EXC_POOL = [["ValueError", ["x"]], ["ValueError", ["\xe9"]], ["ValueError", []],
             # different arguments, the same text: 1 / "1", no argument / an empty one
             ["ValueError", [1]], ["ValueError", ["1"]], ["ValueError", [""]]]
 CALL_POOL = [{"ret": 1}, {"ret": None}, {"raise": ["ValueError", ["x"]]}, {"raise": ["KeyError", ["k"]]},
-             {"raise": ["MyErr", ["a", "b"]]}, {"raise": ["RuntimeError", []]}, {"raise": ["AbcChild", ["x"]]}]
+             {"raise": ["MyErr", ["a", "b"]]}, {"raise": ["RuntimeError", []]}, {"raise": ["AbcChild", ["x"]]},
+             # (an Exception like any other to a matcher: the code under test calls skipTest())
+             {"raise": ["SkipTest", ["not today"]]}]
 CALL_BASE_POOL = [{"raise": ["KeyboardInterrupt", ["kb"]]}, {"raise": ["SystemExit", [3]]},
                   {"raise": ["GeneratorExit", []]}]
 WARNCALL_POOL = [{"ret": 1}, {"warn": [["DeprecationWarning", "old foo"]], "ret": 2},
